@@ -5,7 +5,7 @@
 (* specification says about it: the analyzer's verdict (codes of the first *)
 (* failing pass) and, when accepted, the supported-construct classes.      *)
 (***************************************************************************)
-EXTENDS PdlBuild, PdlSupport, Json, IOUtils
+EXTENDS PdlBuild, PdlDev, Json, IOUtils
 
 Final == [endian |-> "little", decls |-> ds]
 
@@ -14,7 +14,8 @@ Result ==
       a == IF v.accepted THEN InlineGroups(Final) ELSE [endian |-> "little", decls |-> <<>>]
   IN [d |-> Final, accepted |-> v.accepted, pass |-> v.pass, codes |-> v.codes, analyzed |-> a,
       rust |-> v.accepted /\ RustSupported(a), py |-> v.accepted /\ PySupported(a),
-      cxx |-> v.accepted /\ CxxSupported(a), java |-> v.accepted /\ JavaSupported(a)]
+      cxx |-> v.accepted /\ CxxSupported(a), java |-> v.accepted /\ JavaSupported(a),
+      pyclean |-> v.accepted /\ PyClean(a), cxxclean |-> v.accepted /\ CxxClean(a), javaclean |-> v.accepted /\ JavaClean(a)]
 
 EmitDesc == done => PrintT(<<"DESC", ToJson(Result)>>)
 
